@@ -25,10 +25,12 @@ META = {
                   'object whose address exists only in stub machine code or in the unscanned itab word is reachable from the '
                   'variable through GC-visible pointers. The model is tied to the code by differential execution.',
     'level_note': 'Partial: the real garbage collector, the runtime\'s itab/method-set layout, reflect.MakeFunc and the Go ABI are '
-                  'trusted/observed (finalizer probes + calls after forced GC with heap churn), not modelled. Histories use the '
-                  'builder API as documented (mock.Interface(&v).Method(..)...); retained CachedInterfaceMocker handles used after '
-                  'Reset, two builders mocking the same variable, and user assignments to a mocked variable are outside the '
-                  'quantifier. Trusted: Lean kernel, harness, generators.',
+                  'trusted/observed (finalizer probes + calls after forced GC with heap churn), not modelled; arguments are '
+                  'three signature classes. Theorems quantify over builder-API histories (mock with fitting or rejected '
+                  'callbacks, per-method Cancel, Reset, drop, assignments by the test); handles kept across Reset are modelled '
+                  'and run but outside Reachable. Recorded defects of the unchanged code that the run reproduces as KNOWN-FINDING: '
+                  'F25 kept handle re-mocks, F27 same-named foreign unexported method, F28 two builders on one variable, '
+                  'F29 second Reset clobbers an assigned variable. Trusted: Lean kernel, harness, generators.',
 }
 
 PKG = 'github.com/tencent/goom'
@@ -98,56 +100,92 @@ def gen_wide_types(rng, n, first_id):
 SIG_DECL = {0: '(x int) int', 1: '(x int, s string) int', 2: '() string'}
 
 
+def gen_twin_types(rng, npairs, first_id):
+    """Pairs of DIFFERENT interface types with the same package path and the same name (function-local types of two
+    functions): reflect's String()/PkgPath() cannot tell them apart.  Both contain a shared method name at different
+    positions of their method sets."""
+    types = []
+    for p_ in range(npairs):
+        shared = [(gen_name(rng, rng.below(2) == 0) + 'S', rng.below(2)) for _ in range(1 + rng.below(2))]
+        for half in range(2):
+            names = dict(shared)
+            extra = 1 + rng.below(5)
+            while len(names) < len(shared) + extra:
+                names.setdefault(gen_name(rng, rng.below(2) == 0), rng.below(2))
+            decl = list(names.items())
+            for i in range(len(decl) - 1, 0, -1):
+                j = rng.below(i + 1)
+                decl[i], decl[j] = decl[j], decl[i]
+            types.append({'id': first_id + 2 * p_ + half, 'decl': decl, 'emb': None, 'local': f'c07L{p_}', 'twin': first_id + 2 * p_ + 1 - half})
+    return types
+
+
 def go_types_source(types):
     o = ['// GENERATED by checks/C07.py — interface zoo for the C07 probe.', 'package mocker', '',
          'import (', '\t"fmt"', '\t"reflect"', '\t"unsafe"', ')', '', 'var _ fmt.Stringer', '']
     for t in types:
         tid, decl, emb = t['id'], t['decl'], t['emb']
+        local = t.get('local')
+        store = 'local' if local else ('array', 'heap', 'field')[tid % 3]      # where the mocked variables live
         lines = []
         i = 0
         while i < len(decl):
-            if emb and i == emb[0]:
+            if emb and i == emb[0] and not local:
                 o.append(f'type c07E{tid} interface {{')
-                for n, s in decl[emb[0]:emb[1]]:
-                    o.append(f'\t{n}{SIG_DECL[s]}')
+                for n, sg in decl[emb[0]:emb[1]]:
+                    o.append(f'\t{n}{SIG_DECL[sg]}')
                 o.append('}')
                 lines.append(f'\tc07E{tid}')
                 i = emb[1]
                 continue
-            n, s = decl[i]
+            n, sg = decl[i]
             if n == 'String':
                 lines.append('\tfmt.Stringer')
             elif n == 'Error':
                 lines.append('\terror')
             else:
-                lines.append(f'\t{n}{SIG_DECL[s]}')
+                lines.append(f'\t{n}{SIG_DECL[sg]}')
             i += 1
-        o.append(f'type c07T{tid} interface {{')
-        o += lines
-        o.append('}')
+        tname = local or f'c07T{tid}'
+        tdecl = [f'type {tname} interface {{'] + lines + ['}']
+        if not local:
+            o += tdecl
         o.append(f'type c07I{tid} struct{{ id int }}')
-        for n, s in decl:
-            if s == 2:
+        for n, sg in decl:
+            if sg == 2:
                 o.append(f'func (p *c07I{tid}) {n}() string {{ return c07implS(p.id) }}')
-            elif s == 1:
+            elif sg == 1:
                 o.append(f'func (p *c07I{tid}) {n}(x int, s string) int {{ return c07impl(p.id, "{n}", x, s) }}')
             else:
                 o.append(f'func (p *c07I{tid}) {n}(x int) int {{ return c07impl(p.id, "{n}", x, "") }}')
-        o.append(f'var c07V{tid} [{NVAR}]c07T{tid}')
-        o.append(f'func init() {{')
+        if store == 'array':
+            o.append(f'var c07V{tid} [{NVAR}]{tname}')
+            vx = f'c07V{tid}'
+        elif store == 'heap':
+            o.append(f'var c07V{tid} = new([{NVAR}]{tname})')
+            vx = f'c07V{tid}'
+        elif store == 'field':
+            o.append(f'var c07V{tid} = &struct {{\n\tpad [3]int\n\tv   [{NVAR}]{tname}\n}}{{}}')
+            vx = f'c07V{tid}.v'
+        else:
+            vx = 'vv'
+        o.append('func init() {')
+        if local:
+            o += ['\t' + l for l in tdecl]
+            o.append(f'\tvv := new([{NVAR}]{tname})')
         o.append(f'\tc07Types[{tid}] = &c07Type{{')
-        o.append(f'\t\trt: reflect.TypeOf((*c07T{tid})(nil)).Elem(), nvar: {NVAR},')
-        o.append(f'\t\tptr: func(s int) interface{{}} {{ return &c07V{tid}[s] }},')
-        o.append(f'\t\tset: func(s, id int) {{ if id == 0 {{ c07V{tid}[s] = nil }} else {{ c07V{tid}[s] = &c07I{tid}{{id}} }} }},')
-        o.append(f'\t\twords: func(s int) [2]uintptr {{ return *(*[2]uintptr)(unsafe.Pointer(&c07V{tid}[s])) }},')
-        o.append(f'\t\timpl: func(s int) int {{ if p, ok := c07V{tid}[s].(*c07I{tid}); ok {{ return p.id }}; return 0 }},')
+        o.append(f'\t\trt: reflect.TypeOf((*{tname})(nil)).Elem(), nvar: {NVAR},')
+        o.append(f'\t\tptr: func(s int) interface{{}} {{ return &{vx}[s] }},')
+        o.append(f'\t\tset: func(s, id int) {{ if id == 0 {{ {vx}[s] = nil }} else {{ {vx}[s] = &c07I{tid}{{id}} }} }},')
+        o.append(f'\t\twords: func(s int) [2]uintptr {{ return *(*[2]uintptr)(unsafe.Pointer(&{vx}[s])) }},')
+        o.append(f'\t\timpl: func(s int) int {{ if p, ok := {vx}[s].(*c07I{tid}); ok {{ return p.id }}; return 0 }},')
         o.append(f'\t\tcall: func(s int, name string, x int) string {{')
-        o.append(f'\t\t\tv := c07V{tid}[s]')
+        o.append(f'\t\t\tv := {vx}[s]')
         o.append(f'\t\t\tswitch name {{')
-        for n, s in decl:
-            if s == 2:
+        for n, sg in decl:
+            if sg == 2:
                 o.append(f'\t\t\tcase "{n}": return v.{n}()')
-            elif s == 1:
+            elif sg == 1:
                 o.append(f'\t\t\tcase "{n}": return c07ri(v.{n}(x, "ab"))')
             else:
                 o.append(f'\t\t\tcase "{n}": return c07ri(v.{n}(x))')
@@ -166,9 +204,16 @@ def is_exported(n):
     return n[0].isupper()
 
 
+OWN_PKG = 'github.com/tencent/goom'
+
+
 def sorted_methods(decl):
-    """Go's method-set order: exported names first, each group in byte order."""
-    return sorted((n for n, _ in decl), key=lambda n: (not is_exported(n), n.encode()))
+    """Go's method-set order: exported names first, then by name (bytes), then by package path.  An unexported method
+    that came in with an embedded interface of another package is written name@pkgpath."""
+    def key(q):
+        n, _, pk = q.partition('@')
+        return (not is_exported(n), n.encode(), (pk or OWN_PKG).encode())
+    return sorted((n for n, _ in decl), key=key)
 
 
 def hname(n):
@@ -187,13 +232,17 @@ def gen_history(rng, types, lane):
     after a Reset such a variable is re-mocked once ('kept') or several times ('kept-multi', the known finding F14)."""
     ta = rng.choice(types)
     tys = [ta]
-    if rng.below(2):
+    if lane == 'twin':
+        tys.append(next(t for t in types if t['id'] == ta['twin']))
+    elif rng.below(2):
         tys.append(rng.choice(types))
-    nv = 1 + rng.below(4)
+    nv = (2 if lane == 'twin' else 1) + rng.below(3 if lane == 'twin' else 4)
     vars_ = []
     per_type = {}
     for i in range(nv):
         t = tys[0] if (i < 2 and rng.below(3) > 0) else rng.choice(tys)     # same-type pairs are common
+        if lane == 'twin' and i < 2:
+            t = tys[i]
         if per_type.get(t['id'], 0) >= NVAR:
             t = tys[0]
             if per_type.get(t['id'], 0) >= NVAR:
@@ -209,6 +258,8 @@ def gen_history(rng, types, lane):
     life = {}          # (v, method) -> its mocker has a When (since its last Apply / Reset)
     canceled = {}      # handle-mode var -> number of re-mocks since its context was canceled (None: context live)
     applied = set()    # (v, method) successfully mocked since the variable was last restored
+    holds = {}         # v -> the variable currently holds the fake interface
+    kindof = {}        # (v, method) -> kind of its current replacement
     nops = 3 + rng.below(12)
 
     def observe_all():
@@ -217,6 +268,26 @@ def gen_history(rng, types, lane):
             if rng.below(2) == 0:
                 ops.append(f'wd:{v}')
 
+    def try_pc(alive):
+        # schedules: another goroutine keeps calling an already mocked method while further methods are mocked
+        nonlocal k
+        cc = [(v, m) for (v, m) in sorted(applied) if holds.get(v) and not handle[v] and kindof.get((v, m)) in ('ap', 'rt')
+              and vars_[v][2] in alive and len(vars_[v][0]['decl']) >= 2]
+        if not cc:
+            return False
+        v, called = rng.choice(cc)
+        t, _, b = vars_[v]
+        others = [m for m in sorted_methods(t['decl']) if m != called]
+        names = [rng.choice(others) for _ in range(1 + rng.below(4))]
+        ops.append(f'pc:{b}:{v}:{called}:{k}:{",".join(names)}')
+        for m2 in names:
+            life[(v, m2, b)] = False
+            applied.add((v, m2))
+            kindof[(v, m2)] = 'ap'
+        k += len(names)
+        observe_all()
+        return True
+
     if rng.below(3) == 0:
         ops.append(f'od:{ta["id"]}')
     if rng.below(4) == 0:
@@ -224,10 +295,14 @@ def gen_history(rng, types, lane):
     for _ in range(nops):
         r = rng.below(100)
         alive = [b for b in (0, 1) if b not in dropped]
+        if lane == 'conc' and rng.below(3) == 0 and try_pc(alive):
+            continue
         cand = [v for v, (_, _, ow) in enumerate(vars_) if ow in alive]
         if r < (60 if kept else 70) and cand:
             v = rng.choice(cand)
             t, _, b = vars_[v]
+            if lane == 'twob' and v == 0:
+                b = rng.choice(alive)              # variable 0 is mocked through both builders (known finding F28)
             if handle[v] and canceled.get(v) is not None and canceled[v] >= (3 if lane == 'kept-multi' else 1):
                 continue
             h = 'h' if handle[v] else ''
@@ -241,14 +316,14 @@ def gen_history(rng, types, lane):
                 k += 1
                 continue
             m = rng.choice(srt)
-            if rng.below(12 if lane != 'malformed' else 3) == 0 and not life.get((v, m)):
+            if rng.below(12 if lane != 'malformed' else 3) == 0 and not life.get((v, m, b)):
                 # a callback whose signature does not fit: must be rejected and must leave no trace
                 ops.append(f'{h}{rng.choice(["apx", "apx", "rtx"])}:{b}:{v}:{m}:{k}')
                 k += 1
                 if rng.below(2) == 0:
                     observe_all()
                 continue
-            kinds = ['ap', 'ap', 'rt', 'wn'] if not life.get((v, m)) else ['ap']
+            kinds = ['ap', 'ap', 'rt', 'wn'] if not life.get((v, m, b)) else ['ap']
             kind = rng.choice(kinds)
             if kind == 'wn' and sig[m] == 2:
                 kind = 'rt'
@@ -258,14 +333,16 @@ def gen_history(rng, types, lane):
                 ops.append(f'{h}wn:{b}:{v}:{m}:{k}:{a}')
             else:
                 ops.append(f'{h}{kind}:{b}:{v}:{m}:{k}')
-            life[(v, m)] = kind != 'ap'            # Apply drops the When (iface.go:94)
+            life[(v, m, b)] = kind != 'ap'            # Apply drops the When (iface.go:94)
             applied.add((v, m))
+            holds[v] = True
+            kindof[(v, m)] = kind
             if handle[v] and canceled.get(v) is not None:
                 canceled[v] += 1
             k += 1
             if rng.below(3) == 0:
                 observe_all()
-        elif r < 76 and cand and not kept:
+        elif r < 76 and cand and not kept and lane != 'twob':
             # Cancel through ONE method's handle: restores the whole variable if that method is mocked, else a no-op;
             # later lookups re-mock the same and the other methods
             v = rng.choice(cand)
@@ -277,31 +354,48 @@ def gen_history(rng, types, lane):
             ops.append(f'cn:{b}:{v}:{m}')
             if m in srt:
                 if (v, m) in applied:
+                    holds[v] = False
                     for key in [key for key in life if key[0] == v]:
                         del life[key]
                     applied.difference_update({key for key in applied if key[0] == v})
                 else:
-                    life.pop((v, m), None)
+                    life.pop((v, m, b), None)
             if rng.below(2) == 0:
                 observe_all()
             for _ in range(rng.below(4)):           # reconfigure right away through new lookups
                 m2 = rng.choice(srt)
-                kind = rng.choice(['ap', 'rt'] if not life.get((v, m2)) else ['ap'])
+                kind = rng.choice(['ap', 'rt'] if not life.get((v, m2, b)) else ['ap'])
                 ops.append(f'{kind}:{b}:{v}:{m2}:{k}')
-                life[(v, m2)] = kind != 'ap'
+                life[(v, m2, b)] = kind != 'ap'
                 applied.add((v, m2))
+                holds[v] = True
+                kindof[(v, m2)] = kind
                 k += 1
             observe_all()
         elif r < 82 and alive:
             b = rng.choice(alive)
             ops.append(f'rs:{b}')
+            for v_ in range(len(vars_)):
+                if vars_[v_][2] == b:
+                    holds[v_] = False
             applied.difference_update({key for key in applied if vars_[key[0]][2] == b})
-            for key in [key for key in life if vars_[key[0]][2] == b]:
+            for key in [key for key in life if key[2] == b]:
                 del life[key]
             for v, (_, _, ow) in enumerate(vars_):
                 if ow == b and handle[v]:
                     canceled[v] = 0
             observe_all()
+        elif r < 87 and lane != 'twob':
+            # the test assigns the variable itself (nil or a real implementation), mocked or not
+            free = [v for v in range(len(vars_)) if not handle[v]]
+            if free:
+                va = rng.choice(free)
+                ops.append(f'as:{va}:{rng.below(3) and 1 + rng.below(9)}')
+                holds[va] = False
+            if rng.below(2) == 0:
+                observe_all()
+        elif r < 89 and lane in ('plain', 'gc'):
+            try_pc(alive)
         elif r < 90:
             observe_all()
         elif lane == 'gc' or (kept and rng.below(3) == 0):
@@ -330,11 +424,39 @@ def gen_history(rng, types, lane):
     return 'c07.hist ' + ' '.join(toks + ops)
 
 
+def twin_sweep(t1, t2):
+    """Same-named local types: every shared method name mocked on a variable of the first, then of the second type."""
+    shared = [n for n, _ in t1['decl'] if n in dict(t2['decl'])]
+    line = f'c07.hist {T_tok(t1)} {T_tok(t2)} V:{t1["id"]}:0 V:{t2["id"]}:0 od:{t1["id"]} od:{t2["id"]}'
+    k = 0
+    for v in (0, 1):
+        for n in shared:
+            line += f' ap:0:{v}:{n}:{k}'
+            k += 1
+        line += ' ca:0 ca:1'
+    return line + ' rs:0 wd:0 wd:1'
+
+
+def deep_line(t, rng, n):
+    """Many mocks in ONE context — every method of a wide interface once, then re-mocks up to `n` in total (so that any
+    bounded / re-allocated callback store has long dropped the older live ones) — builder dropped, GC, every method called."""
+    srt = sorted_methods(t['decl'])
+    pos = list(range(len(srt)))
+    for i in range(len(pos) - 1, 0, -1):
+        j = rng.below(i + 1)
+        pos[i], pos[j] = pos[j], pos[i]
+    seq = pos + [pos[rng.below(len(pos) // 3)] for _ in range(max(0, n - len(pos)))]    # re-mocks hit only a third of the methods
+    line = f'c07.hist {T_tok(t)} V:{t["id"]}:0'
+    for k, p_ in enumerate(seq[:max(n, len(pos))]):
+        line += f' ap:0:0:{srt[p_]}:{k}'
+    return line + ' ca:0 dr:0 gc ca:0 wd:0'
+
+
 def wide_sweep(t, rng):
     """Wide interface: mocks at low / middle / around 99 / last positions, every method called."""
     srt = sorted_methods(t['decl'])
     n = len(srt)
-    pos = sorted({0, 1, n // 2, 97, 98, 99, 100, n - 2, n - 1, rng.below(n), rng.below(n)})
+    pos = sorted(p_ for p_ in {0, 1, n // 2, 97, 98, 99, 100, n - 2, n - 1, rng.below(n), rng.below(n)} if p_ < n)
     line = f'c07.hist {T_tok(t)} V:{t["id"]}:0 V:{t["id"]}:6 mx ca:1'
     k = 0
     for p_ in pos:
@@ -367,7 +489,7 @@ def parse_line(line):
     for tk in toks:
         f = tk.split(':')
         if f[0] == 'T':
-            decls[int(f[1])] = [(d.split('/')[0], int(d.split('/')[1])) for d in f[2].split(',')] if f[2] else []
+            decls[int(f[1])] = [(d.rsplit('/', 1)[0], int(d.rsplit('/', 1)[1])) for d in f[2].split(',')] if f[2] else []
         elif f[0] == 'V':
             vars_.append((int(f[1]), int(f[2])))
         else:
@@ -385,13 +507,23 @@ def fmt_res(kind, k, sig, x, a=None):
 
 def spec_expect(line):
     """The property itself, per observable op of a history: list of (op tokens, expected observation or a predicate).
-    Mocks are per variable; a method's replacement is its latest mock since the variable's builder was last reset;
-    unmocked methods of a mocked variable panic 'not implements'; Reset restores; nothing needed is ever collected."""
+    Mocks are per variable; a method's replacement is its latest mock since the variable was last restored; unmocked
+    methods of a mocked variable panic 'not implements'; a mock (re-)installs all the variable's mocks even if the test
+    assigned the variable in between; Reset (or Cancel of a mocked method) puts back the value the variable held when
+    it was first mocked since its last restore; nothing needed is ever collected."""
     decls, vars_, ops = parse_line(line)
     mocked = [dict() for _ in vars_]          # method -> (kind,k,a)
-    active = [False] * len(vars_)
+    cur = [('val', init) for _, init in vars_]   # current words: ('val', id) or ('fake',)
+    saved = [None] * len(vars_)                # value to restore; None = not in a mocking round
     owner = {}                                 # var -> builder that mocked it
     exp = []
+
+    def restore(v):
+        cur[v] = ('val', saved[v])
+        saved[v] = None
+        mocked[v] = {}
+        owner.pop(v, None)
+
     for f in ops:
         o = f[0]
         if o in MOCKS:
@@ -406,9 +538,23 @@ def spec_expect(line):
                 exp.append((f, 'panic:applyerr'))       # rejected: nothing may change
             else:
                 mocked[v][m] = (o, k, int(f[5]) if o == 'wn' else None)
-                active[v] = True
+                if saved[v] is None:
+                    saved[v] = cur[v][1]
+                cur[v] = ('fake',)
                 owner[v] = b
                 exp.append((f, 'ok'))
+        elif o == 'pc':
+            b, v, k = int(f[1]), int(f[2]), int(f[4])
+            for i_, m in enumerate(f[5].split(',')):
+                mocked[v][m] = ('ap', k + i_, None)
+            if saved[v] is None:
+                saved[v] = cur[v][1]
+            cur[v] = ('fake',)
+            owner[v] = b
+            exp.append((f, 'ok'))               # every concurrent call returned the called method's replacement
+        elif o == 'as':
+            cur[int(f[1])] = ('val', int(f[2]))
+            exp.append((f, 'ok'))
         elif o == 'cn':
             v, m = int(f[2]), f[3]
             decl = dict(decls[vars_[v][0]])
@@ -417,51 +563,103 @@ def spec_expect(line):
             elif m not in decl:
                 exp.append((f, 'panic:nomethod'))
             else:
-                if active[v] and m in mocked[v]:       # the context is shared: the whole variable is restored
-                    mocked[v], active[v] = {}, False
-                    owner.pop(v, None)
+                if saved[v] is not None and m in mocked[v]:       # the context is shared: the whole variable is restored
+                    restore(v)
                 exp.append((f, 'ok'))
         elif o == 'rs':
             b = int(f[1])
             for v in range(len(vars_)):
-                if owner.get(v) == b:
-                    mocked[v], active[v] = {}, False
-                    del owner[v]
+                if owner.get(v) == b and saved[v] is not None:
+                    restore(v)
             exp.append((f, 'ok'))
         elif o == 'dr':
             exp.append((f, 'ok'))
         elif o == 'gc':
-            need = sorted(kk for v in range(len(vars_)) if active[v] for (kd, kk, _) in mocked[v].values() if kd == 'ap')
+            need = sorted(kk for v in range(len(vars_)) if cur[v] == ('fake',) for (kd, kk, _) in mocked[v].values() if kd == 'ap')
             exp.append((f, ('gc', need)))
         elif o == 'ca':
             v = int(f[1])
-            tid, init = vars_[v]
+            tid = vars_[v][0]
             srt = sorted_methods(decls[tid])
             sig = dict(decls[tid])
             rs = []
             for mi, m in enumerate(srt):
                 x = 7 + mi
-                if active[v]:
+                if sig[m] == 9:
+                    continue                      # foreign method the test package cannot call
+                if cur[v] == ('fake',):
                     if m in mocked[v]:
                         kd, kk, a = mocked[v][m]
                         rs.append(f'{m}=' + fmt_res(kd, kk, sig[m], x, a))
                     else:
                         rs.append(f'{m}=panic:notimpl')
-                elif init == 0:
+                elif cur[v][1] == 0:
                     rs.append(f'{m}=panic:nilderef')
                 elif sig[m] == 2:
-                    rs.append(f'{m}=impl{init}')
+                    rs.append(f'{m}=impl{cur[v][1]}')
                 else:
-                    rs.append(f'{m}=r-{init * 100000 + hname(m) * 1000 + x * 10 + (2 if sig[m] == 1 else 0)}')
+                    rs.append(f'{m}=r-{cur[v][1] * 100000 + hname(m) * 1000 + x * 10 + (2 if sig[m] == 1 else 0)}')
             exp.append((f, '|'.join(rs)))
         elif o == 'wd':
             v = int(f[1])
-            exp.append((f, 'fake' if active[v] else ('nil' if vars_[v][1] == 0 else f'impl{vars_[v][1]}')))
+            exp.append((f, 'fake' if cur[v] == ('fake',) else ('nil' if cur[v][1] == 0 else f'impl{cur[v][1]}')))
         elif o == 'od':
             exp.append((f, ','.join(sorted_methods(decls[int(f[1])]))))
         elif o == 'mx':
             exp.append((f, ('any',)))
     return exp
+
+
+def two_builder_pattern(line):
+    """One variable is mocked through two different builders in one history (known finding F28)."""
+    _, _, ops = parse_line(line)
+    owner = {}
+    for f in ops:
+        if f[0] in MOCKS or f[0] in ('cn', 'pc'):
+            v, b = int(f[2]), int(f[1])
+            if owner.setdefault(v, b) != b:
+                return True
+    return False
+
+
+def reset_again_pattern(line):
+    """A variable is restored (Reset / Cancel), then assigned by the test, then its builder is Reset again (or the method
+    cancelled again) without a new mock in between: the stale cancelled mocker restores the old value again (finding F29)."""
+    _, _, ops = parse_line(line)
+    owner, stale, armed = {}, {}, set()
+    for f in ops:
+        if f[0] in MOCKS or f[0] == 'pc':
+            v = int(f[2])
+            owner[v] = int(f[1])
+            stale.pop(v, None)
+            armed.discard(v)
+        elif f[0] == 'as':
+            if int(f[1]) in stale:
+                armed.add(int(f[1]))
+        elif f[0] == 'rs':
+            for v, b in owner.items():
+                if b == int(f[1]):
+                    if v in armed:
+                        return True
+                    stale[v] = True
+        elif f[0] == 'cn':
+            v = int(f[2])
+            if v in armed:
+                return True
+            if v in owner:
+                stale[v] = True
+    return False
+
+
+def shadow_pattern(line):
+    """A mocked method name is shared by an unexported method of another package in the same method set (finding F27)."""
+    decls, vars_, ops = parse_line(line)
+    for f in ops:
+        if f[0] in MOCKS:
+            names = [n for n, _ in decls[vars_[int(f[2])][0]]]
+            if any(q != f[3] and q.partition('@')[0] == f[3] for q in names):
+                return True
+    return False
 
 
 def f14_pattern(line):
@@ -489,7 +687,7 @@ def f14_pattern(line):
 
 def oracle(line, obs):
     """None if the implementation's observation satisfies the property, else (why, finding-hint)."""
-    if obs is None or obs == 'crash':
+    if obs is None or obs in ('crash', 'timeout'):
         return 'the process crashed while running this history (call through a mocked interface variable after GC?)', 'crash'
     exp = spec_expect(line)
     got = obs.split(';')
@@ -546,8 +744,12 @@ def build_probe(types, tag='c07'):
     return b
 
 
+SCRUB_ENV = {'GOOM_DEBUG': '', 'GODEBUG': '', 'GOTRACEBACK': 'single', 'GOMAXPROCS': '', 'GOGC': '50'}
+
+
 def run_impl(binary, ops, tag='c07', chunk=60):
-    """Run the histories on the real code in parallel child processes; a crash is an observation of the crashing line."""
+    """Run the histories on the real code in parallel child processes.  A line without an observation (crash, kill, timeout)
+    is re-run ONCE alone: only a crash that reproduces is an observation ('crash' / 'timeout') of that line."""
     import concurrent.futures as cf
     ops_path = os.path.join(C.BUILD, f'{tag}.ops')
     open(ops_path, 'w').write('\n'.join(ops) + '\n')
@@ -555,21 +757,29 @@ def run_impl(binary, ops, tag='c07', chunk=60):
     impl = [None] * n
     crashlog = {}
 
+    def probe(start, end, suffix, timeout):
+        outp = os.path.join(C.BUILD, f'{tag}.{start}.{end}.{suffix}.impl')
+        env = dict(SCRUB_ENV)
+        env.update({'VERIF_START': str(start), 'VERIF_END': str(end)})
+        timed_out = False
+        try:
+            rc, log = C.run_probe(binary, 'TestVerifC07', ops_path, outp, env=env, timeout=timeout)
+        except Exception as e:  # subprocess timeout
+            rc, log, timed_out = 99, str(e), True
+        if 'test timed out' in log:
+            timed_out = True
+        got = C.read_indexed(outp, n)
+        if os.path.exists(outp):
+            os.remove(outp)
+        return rc, log, got, timed_out
+
     def work(lo, hi):
         res = {}
         start = lo
         tries = 0
-        while start < hi and tries < 40:
+        while start < hi and tries < (hi - lo) + 5:
             tries += 1
-            outp = os.path.join(C.BUILD, f'{tag}.{lo}.{start}.impl')
-            try:
-                rc, log = C.run_probe(binary, 'TestVerifC07', ops_path, outp,
-                                      env={'VERIF_START': str(start), 'VERIF_END': str(hi), 'GOGC': '50'}, timeout=600)
-            except Exception as e:  # timeout
-                rc, log = 99, str(e)
-            got = C.read_indexed(outp, n)
-            if os.path.exists(outp):
-                os.remove(outp)
+            rc, log, got, _ = probe(start, hi, 'a', 1800)         # typical chunk: 1-3 s
             last = start - 1
             for i in range(start, hi):
                 if got[i] is not None:
@@ -580,8 +790,13 @@ def run_impl(binary, ops, tag='c07', chunk=60):
             if rc == 0 and last == hi - 1:
                 break
             if last + 1 < hi:
-                res[last + 1] = 'crash'
-                crashlog[last + 1] = log[-1500:]
+                bad = last + 1
+                rc2, log2, got2, to2 = probe(bad, bad + 1, 'b', 900)    # once more, alone
+                if got2[bad] is not None:
+                    res[bad] = got2[bad]                           # did not reproduce: machine load, not the code
+                else:
+                    res[bad] = 'timeout' if to2 else 'crash'
+                    crashlog[bad] = (log2 or log)[-1500:]
             start = last + 2
         return res
 
@@ -619,6 +834,13 @@ CORPUS = [  # minimised past failures (F11, F9) and hand-written shapes, always 
     # Cancel through one method's handle (restores the whole variable), then fresh lookups re-mock the other and the same method
     'c07.hist T:9000:M/0,JOT/0,Ek1/1 V:9000:4 ap:0:0:M:0 rt:0:0:JOT:1 ca:0 cn:0:0:M wd:0 ca:0 rt:0:0:JOT:2 ap:0:0:M:3 ca:0 ap:0:0:JOT:4 ca:0 rs:0 wd:0',
     'c07.hist T:9000:M/0,JOT/0,Ek1/1 V:9000:0 V:9000:0 ap:0:0:M:0 ap:0:0:JOT:1 ap:0:1:M:2 cn:0:0:Ek1 ca:0 cn:0:0:JOT ca:0 ca:1 ap:0:0:Ek1:3 ap:0:0:M:4 ca:0 ca:1',
+    # the test assigns the variable while mocked (next mock re-installs every mock) and between rounds (Reset restores the newer value)
+    'c07.hist T:9000:M/0,JOT/0,Ek1/1 V:9000:0 ap:0:0:M:0 as:0:7 ca:0 ap:0:0:JOT:1 ca:0 wd:0 rs:0 wd:0 as:0:5 rt:0:0:M:2 ca:0 rs:0 wd:0 ca:0',
+    'c07.hist T:9000:M/0,JOT/0,Ek1/1 V:9000:3 V:9000:0 ap:0:0:M:0 ap:0:1:M:1 as:0:0 cn:0:0:M wd:0 as:1:4 ap:0:1:JOT:2 ca:1 rs:0 wd:0 wd:1',
+    # F27: crypto/ecdh.Curve brings an unexported `ecdh` of another package next to the own `ecdh`
+    'c07.hist T:7000:GenerateKey/9,NewPrivateKey/9,NewPublicKey/9,Zz/0,ecdh@crypto/ecdh/9,ecdh/0,privateKeyToPublicKey@crypto/ecdh/9 V:7000:0 od:7000 ap:0:0:Zz:0 ca:0 ap:0:0:ecdh:1 ca:0 rs:0 wd:0',
+    # F28: one variable mocked through two builders
+    'c07.hist T:9000:M/0,JOT/0,Ek1/1 V:9000:0 ap:0:0:M:0 ap:1:0:JOT:1 ca:0 rs:0 rs:1 wd:0 ca:0',
     # exported non-ASCII names sort before unexported ASCII ones although byte-wise greater
     'c07.hist T:9002:ab/0,Ωmega/0,zz/1,Ärger/0,αβ/0,ñ/1,Éa/2 V:9002:0 V:9002:2 od:9002 ap:0:0:ab:0 ca:0 rt:0:0:zz:1 wn:0:0:ñ:2:13 ap:0:0:Ωmega:3 ca:0 ca:1 rs:0 wd:0 ap:0:1:αβ:4 ca:1',
 ]
@@ -637,7 +859,8 @@ def run(tier):
     ntypes, per = (200, 6) if tier == 'quick' else (1500, 20)
     types = gen_types(rng.fork('types'), ntypes)
     wide = gen_wide_types(rng.fork('wide'), 3 if tier == 'quick' else 12, 8000)
-    binary = build_probe(types + wide + types_from_lines(CORPUS))
+    twins = gen_twin_types(rng.fork('twin'), 6 if tier == 'quick' else 40, 8500)
+    binary = build_probe(types + wide + twins + types_from_lines(CORPUS))
     hr = rng.fork('hist')
     ops = list(CORPUS)
     lanes = {'corpus': len(CORPUS)}
@@ -656,15 +879,33 @@ def run(tier):
         for _ in range(2):
             ops.append(wide_sweep(t, hr))
             lanes['wide'] = lanes.get('wide', 0) + 1
+    for t in wide[:1 if tier == 'quick' else 4]:   # many live mocks in one context, builder dropped, GC (retained must not be bounded)
+        for n_ in ((300,) if tier == 'quick' else (150, 300, 700)):
+            ops.append(deep_line(t, hr, n_))
+            lanes['deep'] = lanes.get('deep', 0) + 1
+    for i in range(0, len(twins), 2):          # same-named local types
+        ops.append(twin_sweep(twins[i], twins[i + 1]))
+        ops.append(twin_sweep(twins[i + 1], twins[i]))
+        lanes['twin-sweep'] = lanes.get('twin-sweep', 0) + 2
     for i in range(ntypes * per):
-        r = hr.below(20)
-        lane = 'gc' if r < 5 else ('malformed' if r < 8 else ('kept' if r < 12 else ('kept-multi' if r == 12 and hr.below(4) == 0 else 'plain')))
-        sub = types if hr.below(4) else types[:24]
+        r = hr.below(40)
+        lane = ('gc' if r < 10 else 'malformed' if r < 16 else 'kept' if r < 24 else 'twin' if r < 27 else 'twob' if r < 29
+                else 'kept-multi' if r == 29 and hr.below(2) == 0 else 'conc' if r < 33 else 'plain')
+        sub = twins if lane == 'twin' else (types if hr.below(4) else types[:24])
         ops.append(gen_history(hr, sub, lane))
         lanes[lane] = lanes.get(lane, 0) + 1
+    floors = {'conc': 5, 'plain': 50, 'gc': 50, 'kept': 30, 'malformed': 20, 'twin': 5, 'twob': 5, 'wide': 2, 'deep': 1, 'twin-sweep': 2, 'sweep': 12}
+    short = {k_: lanes.get(k_, 0) for k_, v_ in floors.items() if lanes.get(k_, 0) < v_}
+    if short:
+        raise C.Infra(f'C07 generator produced too few histories in lanes {short}')
     ops = list(dict.fromkeys(ops))
     impl, ops_path, crashlog = run_impl(binary, ops)
     model, derr = run_model(ops_path)
+    if sum(1 for x in impl if x) < len(ops) or (model is not None and len(model) < len(ops)):
+        raise C.Infra('C07: some histories produced no observation at all (probe or driver did not run them)')
+    nbad = sum(1 for m_ in (model or []) if m_ in ('bad-op', 'unmodelled', 'type-mismatch')) + sum(1 for x in impl if x in ('bad-op', 'type-mismatch'))
+    if nbad:
+        raise C.Infra(f'C07: {nbad} generated histories were rejected as bad-op/unmodelled/type-mismatch by the probe or the driver')
     # 1. the property on the implementation's observations
     bad = []
     for i, line in enumerate(ops):
@@ -674,6 +915,21 @@ def run(tier):
     seen = set()
     known_n = 0
     for i, (why, hint) in bad:
+        if hint in ('ca', 'wd', 'rs', 'retention') and two_builder_pattern(ops[i]):
+            # one variable mocked through two builders: each builder has its own context and itab, the second wipes the first
+            known_n += 1
+            out.violation(why, {'kind': 'impl-oracle', 'ops': [ops[i]], 'observed': impl[i], 'why': why}, key='two-builders-one-variable')
+            continue
+        if hint in ('ca', 'wd') and reset_again_pattern(ops[i]):
+            # the cancelled mocker stays in Builder.mockers: the next Reset writes its old backup over the value assigned since
+            known_n += 1
+            out.violation(why, {'kind': 'impl-oracle', 'ops': [ops[i]], 'observed': impl[i], 'why': why}, key='reset-again-clobbers-assigned-variable')
+            continue
+        if hint in MOCKS | {'ca'} and shadow_pattern(ops[i]):
+            # methodIndexOf compares names only: an embedded foreign unexported method of the same name is chosen
+            known_n += 1
+            out.violation(why, {'kind': 'impl-oracle', 'ops': [ops[i]], 'observed': impl[i], 'why': why}, key='same-name-foreign-unexported-method')
+            continue
         if hint in ('ca', 'wd') and f14_pattern(ops[i]):
             # several methods re-mocked through a kept handle after Reset: each Apply on the canceled context builds a fresh itab
             known_n += 1
@@ -745,7 +1001,7 @@ def run(tier):
         'distribution': dist,
         'samples': [{'op': ops[i], 'impl': impl[i], 'model': model[i] if model else None} for i in (0, len(ops) // 3, len(ops) // 2, len(ops) - 1)],
     }
-    out.assumptions = ['garbage collector behaviour is observed, not modelled', 'histories use the builder API (mock.Interface(&v).Method(..)..) with one builder per variable']
+    out.assumptions = ['garbage collector behaviour is observed, not modelled', 'signature classes (int)int, (int,string)int, ()string stand for the ABI; C13/C15 cover sizes and the stub bytes']
     return out.finish()
 
 
@@ -762,10 +1018,15 @@ def shrink(binary, line, hint):
             if f[0] in MOCKS:
                 f[4] = str(k)
                 k += 1
+            elif f[0] == 'pc':
+                f[4] = str(k)
+                k += len(f[5].split(','))
             res.append(':'.join(f))
         return 'c07.hist ' + ' '.join(head + res)
 
     def fails(cand):
+        if f14_pattern(cand) or two_builder_pattern(cand) or reset_again_pattern(cand) or shadow_pattern(cand):
+            return False                                               # never shrink into the input class of a known finding
         impl, path, _ = run_impl(binary, [cand], tag='c07-shrink', chunk=1)
         model, _ = run_model(path, tag='c07-shrink')
         if not model or model[0] in ('unmodelled', 'bad-op'):      # stay inside the modelled fragment of histories
@@ -794,7 +1055,8 @@ def types_from_lines(lines):
     for line in lines:
         d, _, _ = parse_line(line)
         decls.update(d)
-    return [{'id': tid, 'decl': d, 'emb': None} for tid, d in sorted(decls.items())]
+    return [dict({'id': tid, 'decl': d, 'emb': None}, **({'local': f'c07L{(tid - 8500) // 2}'} if 8500 <= tid < 8700 else {}))
+            for tid, d in sorted(decls.items()) if tid != 7000]
 
 
 def replay(body):
